@@ -28,6 +28,30 @@ def compile_case(srcs, opts):
 # ---------------------------------------------------------------- syntactic shape classifiers
 # (shapes of OPEN known findings; used to give their witnesses a narrow signature)
 
+def _always_returns(stmts):
+    """every path through the statement list ends in `return <value>`"""
+    if not stmts:
+        return False
+    last = stmts[-1]
+    if isinstance(last, ast.Return):
+        return last.value is not None
+    if isinstance(last, ast.If):
+        return bool(last.orelse) and _always_returns(last.body) and _always_returns(last.orelse)
+    if isinstance(last, ast.While) and isinstance(last.test, ast.Constant) and last.test.value:
+        # an endless loop is only left by return (or break)
+        def has_break(nodes):
+            for n in nodes:
+                if isinstance(n, ast.Break):
+                    return True
+                if isinstance(n, (ast.While, ast.For, ast.FunctionDef)):
+                    continue
+                if has_break(list(ast.iter_child_nodes(n))):
+                    return True
+            return False
+        return not has_break(last.body)
+    return False
+
+
 def source_shapes(src_text):
     shapes = set()
     try:
@@ -43,7 +67,7 @@ def source_shapes(src_text):
         if f.name in logic_names:
             shapes.add("D28-function-named-like-logic-type")
         rets = [x for x in ast.walk(f) if isinstance(x, ast.Return) and x.value is not None]
-        if rets and not (f.body and isinstance(f.body[-1], ast.Return) and f.body[-1].value is not None):
+        if rets and not _always_returns(f.body):
             shapes.add("D25-value-returned-on-some-paths-only")
     for scope in [tree] + fdefs:
         body_nodes = []
